@@ -96,7 +96,11 @@ func normHTML(text []byte) []byte {
 				}
 				i += 5
 			} else {
-				out = append(out, c, text[i+1])
+				if i+1 < len(text) {
+					out = append(out, c, text[i+1])
+				} else {
+					out = append(out, c)
+				}
 				i++
 			}
 		default:
